@@ -122,4 +122,21 @@ CHECKS['C08'] = {
   'technique': 'table agreement over expanded macro entries, who-may-write effect analysis, layout comparison, guard dominance',
 }
 
+CHECKS['C14'] = {
+  'text': 'Decides the table structure of the format scanner: terminator letters = disjoint union of the letters the branches format; '
+          'each branch fetches with the accessor of its kind and passes the value unchanged with the copied specification; position '
+          'accounting and FormatError on negative counts; argument-count test dominates the fetch; scratch and String-sink bounds; File '
+          'sink = vfprintf; show functions use constant formats. Does not decide character-for-character equality with printf.',
+  'note': ASSUME,
+  'technique': 'table agreement (writer letters vs handled letters), guard dominance, symbolic bound comparison, call-site argument rules',
+}
+CHECKS['C15'] = {
+  'text': 'Decides writer/reader agreement structurally: the String escape tables of show and look are inverse maps; every iteration '
+          'path of the reader appends exactly one character; Int/Float use the same specification both ways; scan appends %n, passes its '
+          'counter and advances the position once per conversion; per-specification decisions read only the copied specification. '
+          'Does not decide numeric round-trip within precision.',
+  'note': ASSUME,
+  'technique': 'table inversion check between two switch statements, per-iteration path counting, call-site agreement',
+}
+
 NOT_APPLICABLE = {}
